@@ -29,6 +29,9 @@ import (
 	"io"
 	"log/slog"
 	"net"
+	"os"
+	"os/exec"
+	"path/filepath"
 	"runtime"
 	"strconv"
 	"strings"
@@ -1712,6 +1715,9 @@ func mwRunGroup(ctx *Ctx, g *mwGroup, idx int) {
 				nontrivial = true
 			}
 		}
+		if mwRaceChild {
+			line = "# " + line // no model in the race-enabled child
+		}
 		ctx.Add(line, answer, nontrivial, "C19")
 		ctx.Res.Count("mw.kind=" + cs.kind)
 		ctx.Res.Count(fmt.Sprintf("mw.len=%d", min(len(cs.chain)+len(cs.ichain), 9)))
@@ -1964,6 +1970,49 @@ func mwOracle(ctx *Ctx, cs *mwCase, line, answer string, rec *mwRec, finals []mw
 	}
 }
 
+// mwRunRaceChild: every chain of length <= 2 of every kind, each group run sequentially and then from 8
+// goroutines (scripted and real transport), plus a few longer random chains.
+func mwRunRaceChild(ctx *Ctx) {
+	idx := 0
+	cores := mwCores(false)
+	group := func(kind, chainSrc, ichainSrc string) {
+		g := &mwGroup{kind: kind, chainSrc: chainSrc}
+		for k, tmpl := range cores {
+			m0, c0 := mwMsg{1 + (idx+k)%7, 1 + (idx/3+k)%3}, 1+(idx+2*k)%5
+			var items []mwMsg
+			if kind == "srvitems" {
+				for j := 0; j < 3; j++ {
+					items = append(items, mwMsg{10*(j+1) + m0.tok, 1 + (idx+j+k)%3})
+				}
+			}
+			c, err := mwNewCaseX(kind, chainSrc, ichainSrc, strings.ReplaceAll(tmpl, "@", strconv.Itoa(m0.tok)), m0, c0, items)
+			if err != nil {
+				ctx.Res.Fail("mw: " + err.Error())
+				return
+			}
+			g.cases = append(g.cases, c)
+		}
+		idx++
+		mwRunGroup(ctx, g, idx)
+	}
+	a1 := mwAlphabet(1, 0)
+	a2 := mwAlphabet(2, 0)
+	for _, kind := range []string{"client", "srvmsg", "srvitem", "srvitems"} {
+		group(kind, "-", "-")
+		for _, p := range a1 {
+			group(kind, p, "-")
+			for _, q := range a2 {
+				group(kind, p+"/"+q, "-")
+			}
+		}
+	}
+	for _, p := range a1 {
+		for _, q := range mwAlphabet(5, 0) {
+			group("srvboth", p, q)
+		}
+	}
+}
+
 func quietMwLogs() { slog.SetDefault(slog.New(slog.NewTextHandler(io.Discard, nil))) }
 
 // mwProbeHdrMode: does a handler see the header of the message a message middleware passed on?
@@ -1987,10 +2036,103 @@ func mwProbeHdrMode() int {
 	return mode
 }
 
+// mwRaceChildEnv: set in the copy of the harness built with -race that the thorough tier runs: only the
+// part of the engine that exercises chains from several goroutines, no model lines.
+const mwRaceChildEnv = "VERIF_MW_RACE_CHILD"
+
+var mwRaceChild = os.Getenv(mwRaceChildEnv) != ""
+
+// mwRaceRun: the concurrent phases again under the race detector (the model's theorem
+// concurrent_run_independent says a chain run has no shared mutable state to be disturbed through; the
+// race detector looks for such state in the real chain code, however narrow the window).
+func mwRaceRun(ctx *Ctx) {
+	if os.Getenv("VERIF_BIN_DIR") == "" {
+		// keep the race-enabled copy beside the harness sources it was built from
+		modDir, _ := cacheDirs()
+		_ = os.Setenv("VERIF_BIN_DIR", filepath.Join(filepath.Dir(modDir), ".work", "bin"))
+	}
+	bin, note, fail := mwRaceBinary()
+	if note != "" {
+		ctx.Res.Count("mw." + strings.TrimPrefix(note, "cache."))
+	}
+	if fail != "" {
+		ctx.Res.Fail("mw: " + fail)
+		return
+	}
+	if bin == "" {
+		return
+	}
+	dir, err := os.MkdirTemp("", "mwrace")
+	if err != nil {
+		ctx.Res.Fail("mw: " + err.Error())
+		return
+	}
+	defer os.RemoveAll(dir)
+	if strings.Contains(filepath.Base(bin), "harness-race-overlay-") {
+		defer os.Remove(bin)
+	}
+	line := "# mw.race"
+	ctx.current = line
+	cctx, cancel := context.WithTimeout(context.Background(), 10*time.Minute)
+	defer cancel()
+	cmd := exec.CommandContext(cctx, bin, "-engine", "mw", "-tier", "quick", "-seed", "1", "-out", filepath.Join(dir, "race"))
+	cmd.Env = append(os.Environ(), mwRaceChildEnv+"=1", "GORACE=halt_on_error=0 exitcode=66")
+	var se bytes.Buffer
+	cmd.Stderr = &se
+	out, err := cmd.Output()
+	stderr := se.String()
+	switch {
+	case strings.Contains(stderr, "WARNING: DATA RACE"):
+		ctx.Res.Violate(report.Violation{Property: "C19", Oracle: "race-detector", Key: "mw:data-race:" + raceFirstFrame(stderr),
+			Detail: "requests run from several goroutines through one chain, race-enabled build: " + truncate(stderr, 1500), Line: line})
+	case err != nil && !strings.Contains(string(out), "engine=mw"):
+		ctx.Res.Fail("mw: the race-enabled run failed: " + err.Error() + " " + truncate(stderr, 400))
+	case strings.Contains(string(out), "engine=mw") && !strings.Contains(string(out), "violations=0"):
+		// the child found what the parent finds too (or the known header finding): not repeated here
+		ctx.Res.Count("mw.race.child-reported-violations")
+	}
+	ctx.Add(line, "ok", true, "C19")
+	ctx.Res.Count("mw.race.run")
+}
+
+// mwRaceBinary: the race-enabled copy of this harness. Without a build overlay it is the one engine
+// `cache` uses; with one (bin/mutate.sh) it is built with the same overlay, so that the library
+// sources under test are the same in both copies.
+func mwRaceBinary() (path, note, fail string) {
+	overlay := ""
+	for _, f := range strings.Fields(os.Getenv("GOFLAGS")) {
+		if strings.HasPrefix(f, "-overlay=") {
+			overlay = strings.TrimPrefix(f, "-overlay=")
+		}
+	}
+	if overlay == "" {
+		return cacheRaceBinary()
+	}
+	if os.Getenv("VERIF_CACHE_NORACE") != "" {
+		return "", "cache.race-binary.disabled", ""
+	}
+	modDir, _ := cacheDirs()
+	out := filepath.Join(os.Getenv("VERIF_BIN_DIR"), fmt.Sprintf("harness-race-overlay-%d", os.Getpid()))
+	cmd := exec.Command("go", "build", "-race", "-tags", "verif", "-o", out, "./cmd/harness")
+	cmd.Dir = modDir
+	cmd.Env = append(os.Environ(), "CGO_ENABLED=1")
+	if b, err := cmd.CombinedOutput(); err != nil {
+		return "", "", "building the race-enabled harness with the overlay failed: " + err.Error() + ": " + truncate(string(b), 600)
+	}
+	return out, "cache.race-binary.built-with-overlay", ""
+}
+
 func runMw(ctx *Ctx) {
 	quietMwLogs()
 	mwHdrMode = mwProbeHdrMode()
 	ctx.Res.Count(fmt.Sprintf("mw.header-mode=%d", mwHdrMode))
+	if mwRaceChild {
+		mwRunRaceChild(ctx)
+		return
+	}
+	if ctx.Thor && len(ctx.Replay) == 0 {
+		defer mwRaceRun(ctx)
+	}
 	if len(ctx.Replay) > 0 {
 		for _, l := range ctx.Replay {
 			if !strings.HasPrefix(l, "mw.run ") && !strings.HasPrefix(l, "mw.both ") && !strings.HasPrefix(l, "mw.items ") {
